@@ -2,6 +2,7 @@
 package c04
 
 import (
+	"path/filepath"
 	"errors"
 	"fmt"
 	"io"
@@ -24,7 +25,7 @@ import (
 func TestMain(m *testing.M) { fx.Main(m, "C04") }
 
 type Op struct {
-	Kind       string `json:"kind"` // badlogin goodlogin firstmsg ping workconn userconn
+	Kind       string `json:"kind"` // badlogin goodlogin firstmsg ping workconn userconn sshtunnel sshstranger
 	Key        string `json:"key,omitempty"`
 	AlwaysPass bool   `json:"always_pass,omitempty"`
 	SpecType   string `json:"spec_type,omitempty"`
@@ -39,6 +40,7 @@ type Case struct {
 	Scopes    []string `json:"scopes"`
 	Transport string   `json:"transport"` // tcp tls websocket kcp quic
 	TCPMux    bool     `json:"tcpmux"`
+	SSH       bool     `json:"ssh_gateway"` // frps runs the ssh tunnel gateway with an authorized_keys file
 	Ops       []Op     `json:"ops"`
 }
 
@@ -64,9 +66,14 @@ func gen(t *rapid.T) Case {
 	if c.Method == "oidc" {
 		bad = oidcBadKeys
 	}
+	c.SSH = c.Method == "token" && rapid.IntRange(0, 3).Draw(t, "ssh") == 0
+	kinds := []string{"badlogin", "badlogin", "badlogin", "goodlogin", "firstmsg", "ping", "ping", "workconn", "workconn", "workconn", "userconn"}
+	if c.SSH {
+		kinds = append(kinds, "sshtunnel", "sshtunnel", "sshstranger")
+	}
 	n := rapid.IntRange(2, 12).Draw(t, "nops")
 	for i := 0; i < n; i++ {
-		k := rapid.SampledFrom([]string{"badlogin", "badlogin", "badlogin", "goodlogin", "firstmsg", "ping", "ping", "workconn", "workconn", "workconn", "userconn"}).Draw(t, "kind")
+		k := rapid.SampledFrom(kinds).Draw(t, "kind")
 		op := Op{Kind: k}
 		switch k {
 		case "badlogin":
@@ -78,6 +85,8 @@ func gen(t *rapid.T) Case {
 			op.Repeat = rapid.SampledFrom([]int{1, 1, 1, 5, 20}).Draw(t, "repeat")
 		case "goodlogin":
 			op.AlwaysPass = rapid.Bool().Draw(t, "alwayspass")
+		case "sshtunnel":
+			op.Repeat = rapid.IntRange(0, 1).Draw(t, "keepopen") // 1: the tunnel stays up while the following operations run
 		case "firstmsg":
 			op.MsgType = rapid.SampledFrom(firstTypes).Draw(t, "msgtype")
 		case "ping":
@@ -249,6 +258,10 @@ func run(c Case) error {
 			sc.Auth.OIDC.Issuer = fx.GetIssuer().Srv.URL
 			sc.Auth.OIDC.Audience = audience
 		}
+		if c.SSH && sshKeys() != nil {
+			sc.SSHTunnelGateway = v1.SSHTunnelGateway{BindPort: b.Port(fx.SlotSSH), AutoGenPrivateKeyPath: filepath.Join(sshKeys().dir, fmt.Sprintf("hostkey-%d", b.Port(fx.SlotSSH))),
+				AuthorizedKeysFile: sshKeys().authorizedFile}
+		}
 	})}
 	if c.Transport == "kcp" {
 		opts = append(opts, fx.WithKCP())
@@ -278,7 +291,7 @@ func run(c Case) error {
 		if c.Transport == "kcp" && user == "intruder" {
 			// a refusal over kcp may arrive as silence (the error response is not flushed before the close): do not
 			// let twenty of them outlast the bystander's heartbeat timeout
-			sc.LoginRespTimeout = 1500 * time.Millisecond
+			sc.LoginRespTimeout = 300 * time.Millisecond
 		}
 		l := &msg.Login{Version: "0.62.0", Os: "linux", Arch: "amd64", User: user, Timestamp: ts, RunID: runID, PrivilegeKey: key, PoolCount: pool}
 		l.ClientSpec.AlwaysAuthPass = always
@@ -331,6 +344,14 @@ func run(c Case) error {
 	}
 
 	var extra []*fx.ScriptedClient
+	var sshClosers []func()
+	sshUsed := false
+	_ = sshUsed
+	defer func() {
+		for _, cl := range sshClosers {
+			cl()
+		}
+	}()
 	defer func() {
 		for _, e := range extra {
 			e.Close()
@@ -411,6 +432,33 @@ func run(c Case) error {
 				return fmt.Errorf("step %d: valid login refused: %v", i, e)
 			}
 			extra = append(extra, sc)
+		case "sshtunnel", "sshstranger":
+			if !c.SSH || sshKeys() == nil {
+				continue
+			}
+			gw := s.Addr(fx.SlotSSH)
+			if op.Kind == "sshstranger" {
+				// an ssh user whose key is not in authorized_keys gets nothing at all
+				cl, up, aerr := openSSHTunnel(gw, sshKeys().stranger, fmt.Sprintf("sshx%d", i), s.AllowPort(6))
+				cl()
+				if aerr == nil || up {
+					return fmt.Errorf("step %d: an ssh user whose key is not authorized was let in by the tunnel gateway (tunnel up: %v)", i, up)
+				}
+				fx.AddLabel("sequences", "ssh-stranger-refused", 1)
+				continue
+			}
+			cl, up, aerr := openSSHTunnel(gw, sshKeys().good, fmt.Sprintf("ssh%d", i), s.AllowPort(5))
+			if aerr != nil || !up {
+				cl()
+				return fx.Inconclusive("step %d: authorized ssh tunnel did not come up (%v)", i, aerr)
+			}
+			sshUsed = true
+			fx.AddLabel("sequences", "ssh-tunnel-up", 1)
+			if op.Repeat == 1 {
+				sshClosers = append(sshClosers, cl)
+			} else {
+				cl()
+			}
 		case "firstmsg":
 			conn, e := by.RawConn()
 			if e != nil {
@@ -498,6 +546,9 @@ func run(c Case) error {
 		}
 	}
 	// quiesce: close the extra legitimate sessions, then state must equal the baseline
+	for _, cl := range sshClosers {
+		cl()
+	}
 	legit := map[string]bool{}
 	for _, e := range extra {
 		legit[e.RunID] = true
@@ -595,5 +646,5 @@ func classify(c Case) fx.Class {
 
 func TestSequences(t *testing.T) {
 	fx.Prelease(3)
-	fx.Run(t, fx.Spec[Case]{Prop: "C04", Name: "sequences", Quick: 600, Thorough: 20000, Gen: gen, Run: run, Class: classify})
+	fx.Run(t, fx.Spec[Case]{Prop: "C04", Name: "sequences", Quick: 600, Thorough: 8000, Gen: gen, Run: run, Class: classify})
 }
